@@ -61,3 +61,7 @@ fn fuel_for_instruction(instruction: &Instruction) -> u64 {
         _ => 1,
     }
 }
+
+#[cfg(kani)]
+#[path = "/verif/kani/vm_fuel.rs"]
+mod verif_kani;
